@@ -127,6 +127,33 @@ func (g *gen) newFile(flatSafe bool) int {
 	return i
 }
 
+// Ancestors lists the files (other than the root and the file itself) from which file can be reached
+// through include entries, in index order.
+func (t *Tree) Ancestors(file int) []int {
+	var reach func(from, to int, depth int) bool
+	reach = func(from, to int, depth int) bool {
+		if from == to {
+			return true
+		}
+		if depth > 12 {
+			return false
+		}
+		for _, inc := range t.Files[from].Incs {
+			if inc.Target >= 0 && reach(inc.Target, to, depth+1) {
+				return true
+			}
+		}
+		return false
+	}
+	var out []int
+	for a := 1; a < len(t.Files); a++ {
+		if a != file && reach(a, file, 0) {
+			out = append(out, a)
+		}
+	}
+	return out
+}
+
 func (g *gen) reaches(from, to int) bool {
 	if from == to {
 		return true
@@ -392,7 +419,7 @@ func (g *gen) fill(allAttrs bool) {
 
 // Render produces the YAML text of every file.
 func (t *Tree) Render() {
-	for _, f := range t.Files {
+	for fi, f := range t.Files {
 		var b strings.Builder
 		if f.Version != "" {
 			fmt.Fprintf(&b, "version: '%s'\n", f.Version)
@@ -458,7 +485,12 @@ func (t *Tree) Render() {
 				}
 			}
 			b.WriteString("    cmds:\n")
-			fmt.Fprintf(&b, "      - printf '%%s\\n' \"ORIGIN=%s#%s TASK={{.TASK}} PWD=$(pwd) FV={{.FV_%s}} IV={{.IV_%s}} DV={{.DV_%s}}\"\n", f.ID, tk.Name, f.ID, f.ID, f.ID)
+			// AV: the include variables of the include statements further out (one slot per file that can reach this one)
+			var av []string
+			for _, a := range t.Ancestors(fi) {
+				av = append(av, "{{.IV_"+t.Files[a].ID+"}}")
+			}
+			fmt.Fprintf(&b, "      - printf '%%s\\n' \"ORIGIN=%s#%s TASK={{.TASK}} PWD=$(pwd) FV={{.FV_%s}} IV={{.IV_%s}} DV={{.DV_%s}} AV=[%s]\"\n", f.ID, tk.Name, f.ID, f.ID, f.ID, strings.Join(av, ","))
 			for _, c := range tk.Calls {
 				fmt.Fprintf(&b, "      - task: %q\n", c)
 			}
@@ -482,6 +514,10 @@ func GenOK(r *rand.Rand, idx int, next func() []string) *Tree {
 		// a diamond: two siblings included in the short form, each including the
 		// same common file in the long form with its own dir and vars
 		g.diamond(root, &pool)
+	}
+	if idx%6 == 4 {
+		// one file that has an include of its own, included twice in the long form with different vars
+		g.twice(root, &pool)
 	}
 	g.grow(root, 1, &pool)
 	g.fill(idx%5 == 0)
@@ -508,6 +544,21 @@ func (g *gen) diamond(root int, pool *[]int) {
 		}
 	}
 	*pool = append(*pool, a, b, c)
+}
+
+func (g *gen) twice(root int, pool *[]int) {
+	mid, leaf := g.rootFile(), g.rootFile()
+	g.addInc(root, mid, []string{"vars"})
+	g.addInc(root, mid, []string{"vars"})
+	g.addInc(mid, leaf, [][]string{{"vars"}, {"dir", "vars"}, {"aliases"}}[g.r.Intn(3)])
+	if g.r.Intn(2) == 0 {
+		// and the same through a diamond: a sibling that includes mid with vars of its own
+		s := g.rootFile()
+		g.addInc(root, s, nil).Mapping = false
+		g.addInc(s, mid, []string{"vars"})
+		*pool = append(*pool, s)
+	}
+	*pool = append(*pool, mid, leaf)
 }
 
 // Faults injected into an ok tree.
